@@ -33,6 +33,7 @@
 #include <parmcb/forestindex.hpp>
 #include <parmcb/spvecgf2.hpp>
 #include <parmcb/util.hpp>
+#include <parmcb/detail/verif.hpp>
 
 namespace parmcb {
 
@@ -71,6 +72,7 @@ namespace parmcb {
             };
 
             if (signed_edges.size() == 1) {
+                PARMCB_VERIF_PROBE(mpi_signed_single_edge);
                 if (world.rank() == 0) {
                     auto se = *signed_edges.begin();
                     auto se_v = boost::source(se, g);
@@ -87,6 +89,7 @@ namespace parmcb {
                     }
                 }
             } else if (signed_edges.size() < boost::num_vertices(g)) {
+                PARMCB_VERIF_PROBE(mpi_signed_hidden_edges);
                 /*
                  * Heuristic in case number of signed edges is small compared to the number of vertices.
                  */
@@ -150,6 +153,7 @@ namespace parmcb {
                 std::get<2>(best) = global_min_odd_cycle.exists;
             } else {
                 // split implicitly all vertices
+                PARMCB_VERIF_PROBE(mpi_signed_all_vertices);
                 std::vector<Vertex> localVertices;
                 std::size_t stride = ceil((double) allVertices.size() / world.size());
                 std::size_t istart = world.rank() * stride;
